@@ -23,7 +23,7 @@ def dtstr(name: str, order: str = '<') -> str:
 
 # my own copy of a few enum members (name -> value), so that generators do not read dliswriter.enums
 UNIT_MEMBERS = {'METER': 'm', 'SECOND': 's', 'FOOT': 'ft', 'INCH': 'in', 'PASCAL': 'Pa', 'KELVIN': 'K',
-                'MICROSECOND': 'us', 'DEGREE': 'deg'}
+                'MICROSECOND': 'us', 'DEGREE_ANGLE': 'deg'}
 UNIT_STRINGS = ['m', 's', 'ft', 'in', 'Pa', 'K', 'us', 'deg', 'ohm', 'V']
 NONSTD_UNITS = ['furlong', 'm/s2x', 'My Unit', 'x' * 40]
 INDEX_TYPES = ['ANGULAR-DRIFT', 'BOREHOLE-DEPTH', 'NON-STANDARD', 'RADIAL-DRIFT', 'VERTICAL-DEPTH']
@@ -168,8 +168,33 @@ def gen_num(r):
     return gen_int(r) if r.random() < 0.5 else gen_float(r)
 
 
+# enum members (my own copy: class, member name -> value) used to pass *members* instead of strings
+ENUM_MEMBERS = {
+    ('frame', 'index_type'): ('FrameIndexType', {'BOREHOLE_DEPTH': 'BOREHOLE-DEPTH', 'VERTICAL_DEPTH': 'VERTICAL-DEPTH',
+                                                 'NON_STANDARD': 'NON-STANDARD', 'ANGULAR_DRIFT': 'ANGULAR-DRIFT'}),
+    ('equipment', 'eq_type'): ('EquipmentType', {'TOOL': 'Tool', 'SONDE': 'Sonde', 'CABLE': 'Cable', 'PAD': 'Pad'}),
+    ('equipment', 'location'): ('EquipmentLocation', {'WELL': 'Well', 'RIG': 'Rig', 'REMOTE': 'Remote'}),
+    ('zone', 'domain'): ('ZoneDomain', {'TIME': 'TIME', 'BOREHOLE_DEPTH': 'BOREHOLE-DEPTH', 'VERTICAL_DEPTH': 'VERTICAL-DEPTH'}),
+    ('process', 'status'): ('ProcessStatus', {'COMPLETE': 'COMPLETE', 'ABORTED': 'ABORTED', 'IN_PROGRESS': 'IN-PROGRESS'}),
+    ('calibration_measurement', 'phase'): ('CalibrationMeasurementPhase', {'AFTER': 'AFTER', 'BEFORE': 'BEFORE', 'MASTER': 'MASTER'}),
+    ('channel', 'units'): ('Unit', UNIT_MEMBERS),
+    ('channel', 'properties'): ('Property', {'AVERAGED': 'AVERAGED', 'CALIBRATED': 'CALIBRATED', 'CHANGED_INDEX': 'CHANGED-INDEX',
+                                             'STD': 'STANDARD-DEVIATION', 'OVERSAMPLED': 'OVER-SAMPLED'}),
+}
+ENUM_MEMBERS[('computation', 'properties')] = ENUM_MEMBERS[('channel', 'properties')]
+ENUM_MEMBERS[('process', 'properties')] = ENUM_MEMBERS[('channel', 'properties')]
+
+
+def enum_member(r, key):
+    cls, members = ENUM_MEMBERS[key]
+    m = r.choice(sorted(members))
+    return {'$enum': f'{cls}.{m}', 'value': members[m]}
+
+
 def gen_scalar(r, op, kw, kind, ctx):
     """A valid scalar value spec for (op, kw) of the given kind.  ctx: refs available {type: [opidx]}."""
+    if (op, kw) in ENUM_MEMBERS and r.random() < 0.35:
+        return enum_member(r, (op, kw))
     if (op, kw) in ENUM_IDENT:
         vals = ENUM_IDENT[(op, kw)]
         return r.choice(vals)
@@ -258,6 +283,8 @@ def gen_attr(r, op, kw, kind, multi, ctx, units_p=0.3, route=None, count=None):
     units = None
     if kind in schema.UNITS_KINDS and r.random() < units_p:
         units = r.choice(UNIT_STRINGS)
+        if r.random() < 0.35:
+            units = enum_member(r, ('channel', 'units'))      # a dliswriter.enums.Unit member instead of its string
     if route is None:
         route = r.choice(['kw', 'kw', 'dict', 'AttrSetup']) if units is None else r.choice(['dict', 'AttrSetup'])
     if route == 'kw' and units is None:
